@@ -56,7 +56,7 @@ def worker(sh):
         emit([rng.choice(kinds + [('a', 'PQ0'), ('p', 'PQ0')]) for _ in range(n)], repeat=rng.choice([1, 2]))
     # long lists: list lengths at and around every width a per-list counter or bit mask could have (affine and prepared lists are
     # counted separately by the routine, so each composition is driven on its own and both together)
-    longn = [31, 32, 33, 34, 63, 64, 65] if sh.quick else [31, 32, 33, 34, 63, 64, 65, 66, 127, 128, 129, 255, 256, 257, 300]
+    longn = [31, 32, 33, 34, 63, 64, 65, 255, 256, 257] if sh.quick else [31, 32, 33, 34, 63, 64, 65, 66, 127, 128, 129, 255, 256, 257, 300]
     comps = [('a',), ('p',), ('a', 'p')]
     jobs = [(n, cp) for n in longn for cp in comps]
     for n, cp in jobs[sh.index::sh.nshards]:
